@@ -97,7 +97,7 @@ theorem rxInv_of_view {e e' : Ep} (h : e'.rxView = e.rxView) (hi : RxInv e) : Rx
     · rfl
   · simp only []
     split
-    · exact view_doClose e
+    · rfl
     · split
       · simp only [view_checkSessTerm]; rfl
       · rfl
@@ -224,7 +224,7 @@ theorem view_onSegment (e : Ep) (m : Msg) (flags tid : Nat) (data : Bytes) :
     · have hst' : hasStart flags = false := by simpa using hst
       simp only [hst', Bool.false_eq_true, if_false]
       cases hrt : e.rxTmp with
-      | none => simp only [sendReject, sendMessage, kaReset, idleReset, hrt, hs]
+      | none => simp only [sendReject, sendMessage, sendReady, kaReset, idleReset, hrt, hs]
       | some td =>
         obtain ⟨t, d⟩ := td
         simp only []
@@ -235,10 +235,10 @@ theorem view_onSegment (e : Ep) (m : Msg) (flags tid : Nat) (data : Bytes) :
           rw [this]
         · have hteq' : (t == tid) = false := by simpa using hteq
           simp only [hteq', Bool.false_eq_true, if_false]
-          simp only [sendReject, sendMessage, kaReset, idleReset, hrt, hs]
+          simp only [sendReject, sendMessage, sendReady, kaReset, idleReset, hrt, hs]
   · have hs' : e.inSess = false := by simpa using hs
     simp only [hs', Bool.not_false, if_true, Ep.rxView]
-    simp only [sendReject, sendMessage, kaReset, idleReset, hs']
+    simp only [sendReject, sendMessage, sendReady, kaReset, idleReset, hs']
 
 theorem viewSeg_spec (v : RxView) (s : RxSpec) (flags tid : Nat) (ext data : Bytes)
     (h1 : v.rxLog = s.done) (h2 : v.rxTmp = s.cur) (h3 : v.inSess = s.inSess) :
@@ -388,7 +388,9 @@ theorem rxInv_step (e : Ep) (ev : Ev) (hi : RxInv e) : RxInv (step e ev).1 := by
     simp only []
     split
     · exact hi
-    · exact rxInv_of_view (view_pump _ _) hi
+    · split
+      · exact hi
+      · exact rxInv_of_view (e := { e with txIdle := false }) (view_pump _ _) (rxInv_of_view (e := e) rfl hi)
   | rx c =>
     simp only []
     split
@@ -454,23 +456,23 @@ theorem frame_handleMsg (e : Ep) (m : Msg) :
       unfold onContact; simp only []; cases e.cfg.passive <;> simp
     exact ⟨congrArg RxView.processed this, congrArg RxView.rx this, congrArg RxView.rxBytes this⟩
   | sessInit ka sm xm node ext =>
+    have hs : ∀ (x : Ep) (s : String), (setState x s).1.processed = x.processed ∧ (setState x s).1.rx = x.rx
+        ∧ (setState x s).1.rxBytes = x.rxBytes := by
+      intro x s; unfold setState; split <;> exact ⟨rfl, rfl, rfl⟩
     unfold onSessInit
     simp only []
-    have := congrArg RxView.processed (view_setState (mergeSession
-      { (if e.cfg.passive then sendInit { e with processed := e.processed ++ [.sessInit ka sm xm node ext] }
-         else { e with processed := e.processed ++ [.sessInit ka sm xm node ext] }) with
-        peerInit := some ⟨ka, sm, xm, node⟩, inSess := true } ⟨ka, sm, xm, node⟩) "established")
-    have h2 := congrArg RxView.rx (view_setState (mergeSession
-      { (if e.cfg.passive then sendInit { e with processed := e.processed ++ [.sessInit ka sm xm node ext] }
-         else { e with processed := e.processed ++ [.sessInit ka sm xm node ext] }) with
-        peerInit := some ⟨ka, sm, xm, node⟩, inSess := true } ⟨ka, sm, xm, node⟩) "established")
-    have h3 := congrArg RxView.rxBytes (view_setState (mergeSession
-      { (if e.cfg.passive then sendInit { e with processed := e.processed ++ [.sessInit ka sm xm node ext] }
-         else { e with processed := e.processed ++ [.sessInit ka sm xm node ext] }) with
-        peerInit := some ⟨ka, sm, xm, node⟩, inSess := true } ⟨ka, sm, xm, node⟩) "established")
-    simp only [Ep.rxView] at this h2 h3
-    rw [this, h2, h3]
-    split <;> exact ⟨rfl, rfl, rfl⟩
+    have h1 : (if e.cfg.passive then sendInit { e with processed := e.processed ++ [.sessInit ka sm xm node ext] }
+        else { e with processed := e.processed ++ [.sessInit ka sm xm node ext] }).rxView
+        = ({ e with processed := e.processed ++ [.sessInit ka sm xm node ext] } : Ep).rxView := by
+      cases e.cfg.passive
+      · rfl
+      · exact view_sendInit _
+    generalize (if e.cfg.passive then sendInit { e with processed := e.processed ++ [.sessInit ka sm xm node ext] }
+        else { e with processed := e.processed ++ [.sessInit ka sm xm node ext] }) = e1 at h1 ⊢
+    have h2 := view_mergeSession { e1 with peerInit := some ⟨ka, sm, xm, node⟩, inSess := true } ⟨ka, sm, xm, node⟩
+    refine ⟨(hs _ _).1.trans ((congrArg RxView.processed h2).trans (congrArg RxView.processed h1)),
+      (hs _ _).2.1.trans ((congrArg RxView.rx h2).trans (congrArg RxView.rx h1)),
+      (hs _ _).2.2.trans ((congrArg RxView.rxBytes h2).trans (congrArg RxView.rxBytes h1))⟩
   | sessTerm f r =>
     have : (onSessTerm { e with processed := e.processed ++ [.sessTerm f r] } (.sessTerm f r) r).1.rxView
         = ({ e with processed := e.processed ++ [.sessTerm f r] } : Ep).rxView := by
@@ -593,7 +595,9 @@ theorem processed_prefix_step (e : Ep) (ev : Ev) : e.processed <+: (step e ev).1
     simp only []
     split
     · exact List.prefix_refl _
-    · exact hv _ (view_pump _ _)
+    · split
+      · exact List.prefix_refl _
+      · exact hv _ (view_pump { e with txIdle := false } n)
   | rx c =>
     simp only []
     split
